@@ -28,11 +28,16 @@ def demo_files(repo):
 
 
 def call_planner(zpool, spec, salt=0):
+    from sim.driver import Inconclusive, NodeDied, NodeTimeout
+
     z = zpool.acquire(salt)
     try:
         z.fork(zpool.inproc)
         r = z.op(["plan", None, spec], 120)
         z.end()
+    except (NodeDied, NodeTimeout) as e:
+        zpool.discard(z)
+        raise Inconclusive("planner:" + type(e).__name__)
     except Exception:
         zpool.discard(z)
         raise
